@@ -8,7 +8,7 @@ class FilteredConfigParser(ObjectProxy):
   filters out entries for particular, unwanted species"""
 
 
-  def __init__(self, config_parser, exclude = [], include = []):
+  def __init__(self, config_parser, exclude = None, include = None):
     """Wrap existing ConfigParser so that it excludes entries
     for unwanted species.
 
@@ -26,12 +26,18 @@ class FilteredConfigParser(ObjectProxy):
     if exclude and include:
       raise ValueError("Both exclude and include arguments specified. Only one can be used at one time.")
 
-    if exclude:
+    if not exclude is None and not include:
+      # Excluding an empty collection of species filters nothing.
       self._self_species_list = exclude
       self._self_exclude_flag = True
-    else:
+    elif not include is None:
+      # Including an empty collection of species filters everything.
       self._self_species_list = include
       self._self_exclude_flag = False
+    else:
+      # Neither given: no filtering.
+      self._self_species_list = []
+      self._self_exclude_flag = True
     
   def _check_tuple(self, check_tuple):
     for v in check_tuple:
